@@ -68,6 +68,7 @@ Qed.
 Lemma adds_start_stage s id i k : ADDS id (handle_start_stage s id i k).
 Proof.
   unfold ADDS, handle_start_stage. destruct (get_stage s i) as [st|]; [|noadd].
+  destruct (parent_not_started s st); [unfold ok; cbn [h_commits]; noadd|].
   match goal with |- context [match rr_phase ?r with _ => _ end] => destruct (rr_phase r) end.
   - unfold start_if_ready.
     match goal with |- context [if ?c then ok [] else _] => destruct c end; [noadd|].
